@@ -72,7 +72,7 @@ SIZES = [1, 8, 16, 32, 64]
 
 
 def plan(prop, tier, seed):
-    n, cases = (32, 200) if tier == "quick" else (320, 500)
+    n, cases = (32, 150) if tier == "quick" else (160, 400)
     return [{"kind": "random", "seed": run_seed(seed, prop, tier, i), "cases": cases, "want_sample": i < 2} for i in range(n)]
 
 
